@@ -18,7 +18,7 @@ After each iteration:  STATE <id> <iter> post <2N> scale <N> edge <4E> block <4B
 (`asm` = the model's `assemble`, `exact` = whether `post = scale * assemble` holds exactly — meaningful in
 mode rat).  Finally `DONE <id>`; if an assert of the real code fires: `BAD <id> <which>` and the case ends.
 -/
-import TsdateVerif.Model.EP
+import TsdateVerif.Model.EPM
 import TsdateVerif.Model.Proto
 
 namespace Tsdate.EP.Run
@@ -64,30 +64,23 @@ def callProj (C : Carrier α) (rq : Req α) : IO (Option (Res α)) := do
   | some [a, b, c, d] => return some ⟨(a, b), (c, d)⟩
   | _ => return none
 
-/-- `sweep` with the projection answered over the protocol (same `tinyCheck`/`prep`/`stepApply`).
-Also counts how often the TINY renormalisation fired. -/
-def sweepIO (C : Carrier α) (star : Bool) (cfg : Cfg α) (net : Net α) (u : Bool) (order : List Nat)
-    (s : State α) : IO (Except String (State α × Nat)) := do
-  let mut s := s
-  let mut fired := 0
-  for i in order do
-    if aget s.scale (aget (parOf u net) i) < cfg.tiny ∨ aget s.scale (aget (chiOf u net) i) < cfg.tiny then
-      fired := fired + 1
-    let s1 := tinyCheck cfg net u i s
-    let rq := prep cfg net u i s1
-    if !rq.ok then return .error "damp-assert"
-    if rq.branch = .skip then
-      s := s1
-    else
-      let r ← (if star && rq.branch = .root && isZero rq.age && !rq.unphased then
-                 pure (some (starProj (fun q => ⟨q.cavP, q.cavC⟩) rq))
-               else callProj C rq)
-      match r with
-      | none => return .error "protocol"
-      | some r =>
-        if !resOk rq r then return .error "rescale-assert"
-        s := stepApply cfg rq i r s1
-  return .ok (s, fired)
+/-- The driver's monad: a counter of TINY renormalisations, an error channel for failed asserts, IO. -/
+abbrev DM := StateT Nat (ExceptT String IO)
+
+/-- The projection oracle handed to `iterateM`: checks the asserts of `_damp` (before) and of `_rescale` (after),
+and answers through the protocol — or, with `star`, with the model's own conjugate projection. -/
+def projIO (C : Carrier α) (star : Bool) (rq : Req α) : DM (Res α) := do
+  if !rq.ok then throw "damp-assert"
+  if rq.branch = .skip then return ⟨rq.cavP, rq.cavC⟩
+  let r ← (if star && rq.branch = .root && isZero rq.age && !rq.unphased then
+             pure (some (starProj (fun q => ⟨q.cavP, q.cavC⟩) rq))
+           else (callProj C rq : IO _))
+  match r with
+  | none => throw "protocol"
+  | some r => if !resOk rq r then throw "rescale-assert" else return r
+
+def noteIO (b : Bool) : DM Unit := if b then modify (· + 1) else pure ()
+def guardIO (b : Bool) : DM Unit := if b then pure () else throw "prior-assert"
 
 def assembledExact (net : Net α) (s : State α) : Bool :=
   (List.range s.post.size).all (fun n =>
@@ -172,22 +165,17 @@ def runCase (C : Carrier α) (blk : List (List String)) : IO Unit := do
     let n := net.fixed.size
     let mut s : State α := initState n net.ep.size net.bj.size
     for it in List.range iters do
-      match ← sweepIO C star cfg net true sch.blockOrder s with
+      -- `iterateM` of Model/EPM.lean: at `Id` it is `iterate` (Proofs/EPMonad.iterateM_id)
+      match ← ((iterateM (projIO C star) noteIO guardIO cfg net sch s).run 0).run with
       | .error e => IO.println s!"BAD {id} {e}"; return
-      | .ok (s1, f1) =>
-      match ← sweepIO C star cfg net false sch.edgeOrder s1 with
-      | .error e => IO.println s!"BAD {id} {e}"; return
-      | .ok (s2, f2) =>
-      if sch.regularise && !priorOk cfg sch.free sch.cnt sch.reltol sch.maxitt s2 then
-        IO.println s!"BAD {id} prior-assert"; return
-      let s3 := if sch.regularise then prior cfg sch.free sch.cnt sch.reltol sch.maxitt s2 else s2
-      s := rescaleFactors net s3
+      | .ok (s', fired) =>
+      s := s'
       let asm := (List.range n).map (assemble net s)
       IO.println (s!"STATE {id} {it} post " ++ renderPairs C s.post.toList ++ " scale " ++
         " ".intercalate (s.scale.toList.map C.render) ++ " edge " ++ renderMsgs C s.edge.toList ++
         " block " ++ renderMsgs C s.block.toList ++ " node " ++ renderMsgs C s.node.toList ++
         " asm " ++ renderPairs C asm ++ " exact " ++ (if assembledExact net s then "1" else "0") ++
-        s!" tiny {f1 + f2}")
+        s!" tiny {fired}")
     IO.println s!"DONE {id}"
     (← IO.getStdout).flush
 
